@@ -4,7 +4,10 @@ Three real loops are driven with scripted stub environments that count their
 own invocations:
   heal   ChaperoneLoop.heal            (stub generator; real Chaperone or a scripted Chaperone subclass)
   swarm  RegenerativeSwarm.supervise   (stub worker factory / SimpleWorker work functions)
-  tool   Nucleus.transcribe_with_tools (stub provider object; tools registered in a real Mitochondria)
+  tool   Nucleus.transcribe_with_tools (stub provider object; tools registered in a real Mitochondria; the tools
+         may re-enter the SAME nucleus while a round is executed -- nested transcribe_with_tools, transcribe,
+         clear_log -- and several calls are made one after the other on one nucleus; every provider / mitochondria
+         invocation is attributed to the activation that is executing at that moment)
 """
 import hashlib
 import itertools
@@ -112,8 +115,11 @@ def ev_gen(g, k, ec):
     raise ValueError(fam)
 
 
-def ev_prov(p, k, prev):
+def ev_prov(p, k, prev, q=0):
+    """k = the provider's own (global) complete_with_tools invocation index, q = id of the base prompt"""
     fam = p["fam"]
+    if fam == "bysub":
+        return p["top"] if q < 100 else p["sub"]
     if fam == "script":
         return p["items"][k] if k < len(p["items"]) else p["dflt"]
     if fam == "stoponerr":
@@ -123,13 +129,6 @@ def ev_prov(p, k, prev):
             return ["resp", p["c"], p["first"]]
         return ["resp", p["c"] + k, [10 * (abs(r) % 50) + k % 3 for r in prev]]
     raise ValueError(fam)
-
-
-def ev_exec(tools, call):
-    t, a = call % 10, call // 10
-    if t >= len(tools):
-        return -1000
-    return 2 * a + 1 if tools[t] else -(a + 1)
 
 
 class C18(Check):
@@ -144,30 +143,43 @@ class C18(Check):
             "error traces incl. empty/None}; swarm = max_regenerations x max_steps_per_worker x entropy_threshold x worker family "
             "{stuck repeat, never repeating, alternating, period 3, marker at (w,j), step raises at (w,j), factory raises at w}; "
             "tool = max_iterations x provider family {always tools, plain at k, empty/None tool list at k, raises at k, stop on tool "
-            "error, never-repeating chained calls} x tools {ok, raising, unknown} x auto_execute x provider without complete_with_tools "
-            "x no tools; plus random scripts. non-trivial = at least one environment invocation; distinct by case content")
+            "error, never-repeating chained calls, by-prompt (top-level vs. sub-agent prompts)} x tools {ok, raising, unknown, "
+            "sub-agent = nested transcribe_with_tools(limit -1..4, auto on/off) on the same nucleus up to nesting depth 0..3, "
+            "clear_log, plain transcribe} x auto_execute x provider without complete_with_tools x no tools x 1..4 consecutive "
+            "calls on one nucleus/provider/mitochondria; the budget is checked per activation (outermost and nested); plus "
+            "random scripts. non-trivial = at least one environment invocation; distinct by case content")
     LEVEL_TEXT = ("Coq theorems for ALL generator / validator / worker / factory / provider / tool functions and all integer limits about "
                   "hand-written models of ChaperoneLoop.heal, RegenerativeSwarm.supervise/_run_worker and Nucleus.transcribe_with_tools "
                   "(structural recursion on the loops' own bounds): call-count bounds, error threading, HEALED/VALID only with a "
                   "validator-accepted structure, otherwise tagged with confidence 0, success only with a marker, <= max_iterations tool "
-                  "rounds + 1 completion. The models are tied to the code by evaluating them in Coq on every scripted case the real "
+                  "rounds + 1 completion for EVERY activation of the tool loop (outermost or nested at any depth through tools that "
+                  "re-enter the same nucleus; environment = state machines over an arbitrary state type; any entry state and log, any "
+                  "sequence of calls). The models are tied to the code by evaluating them in Coq on every scripted case the real "
                   "classes ran (limits 0..4 x adversary families exhaustively) and a Python monitor checks the property on every "
                   "implementation trace.")
     LEVEL_NOTE = ("Trusts: Coq kernel+VM; the correspondence harness; outputs/errors/structures as integer ids; environment callables "
-                  "deterministic; Chaperone.fold_enhanced, md5, Mitochondria.execute_tool_call as oracles. Axioms: none.")
+                  "deterministic; Chaperone.fold_enhanced, md5, Mitochondria.execute_tool_call as oracles; a tool performs at most one "
+                  "action on the nucleus per invocation. Axioms: none.")
     TECHNIQUE = "Coq proof by induction on the loop bounds + vm_compute correspondence against the three real loops"
     TRUSTED = ["modelled not verified: raw outputs, error traces, structures, responses and tool calls are integer ids (the harness "
                "interns the strings; md5[:8] of the worker outputs used is checked to be collision-free)",
                "Chaperone.fold_enhanced is an oracle (tabulated per output on a fresh Chaperone); Mitochondria.execute_tool_call is "
-               "an oracle that never raises; summarizer = create_default_summarizer()",
+               "an oracle that never raises (it turns a tool's exception, including a nested call's provider exception, into an "
+               "error result); summarizer = create_default_summarizer()",
+               "tool loop re-entrancy: a tool does at most ONE thing with the nucleus per invocation (nested transcribe_with_tools | "
+               "transcribe | clear_log | nothing); the Nucleus state the model carries is transcription_log; the model's nesting fuel "
+               "(8) exceeds every generated nesting depth (<= 3) and exhaustion would show as the observation [-996] "
+               "(c18_tool_fuel_irrelevant)",
                "confidence arithmetic compared exactly only for dyadic confidence_decay (binary64 exact there); entropy thresholds "
                "are dyadic or in [0.5,2] so 1 - threshold is exact and never within 1e-9 of 1/3, 2/3",
                "the error context is identified through the loop's own _format_error_context; the monitor additionally requires the "
                "error trace text to occur in the context string"]
     ASSUMPTIONS = ["environment callables (generator, worker.step, factory, provider, tools) are deterministic functions of what the "
                    "loop passes them and of their own invocation index",
-                   "one heal()/supervise()/transcribe_with_tools() call on fresh objects (RegenerativeSwarm._worker_counter is "
-                   "cumulative across supervise() calls on one object)",
+                   "one heal()/supervise() call on fresh objects (RegenerativeSwarm._worker_counter is cumulative across supervise() "
+                   "calls on one object); the tool loop is also driven re-entrantly and repeatedly on one object",
+                   "stub provider = function of its own global invocation index, the base prompt and the tool results in the prompt "
+                   "(the Coq theorems allow an arbitrary stateful provider and arbitrary stateful tools)",
                    "an exception raised by the generator / worker / factory / provider propagates (no result is returned)"]
 
     # ------------------------------------------------------------------
@@ -313,6 +325,57 @@ class C18(Check):
                             "has_method": False, "max_iter": mi})
         out.append({"kind": "tool", "prov": provs[0], "comp": ["raise"], "tools": [], "auto": True, "has_method": True, "max_iter": 3})
         out.append({"kind": "tool", "prov": provs[0], "comp": ["raise"], "tools": [True], "auto": True, "has_method": True, "max_iter": 0})
+        return out + self._reentrant_tool_cases(deep, provs)
+
+    def _reentrant_tool_cases(self, deep, provs):
+        """tools that use the SAME nucleus while a round is being executed (sub-agent as a tool, clear_log, a plain
+        question), and consecutive calls on one nucleus / provider / mitochondria"""
+        out = []
+        R = lambda c, calls: ["resp", c, calls]
+        N = lambda lim, au=True: ["nest", lim, au]
+        rprovs = [
+            {"fam": "bysub", "top": R(1, [0]), "sub": R(9, [])},             # sub-agent answers directly
+            {"fam": "bysub", "top": R(1, [0, 21]), "sub": R(2, [11])},       # sub-agent keeps using its second tool
+            {"fam": "script", "items": [], "dflt": R(1, [0])},               # tools forever at every level
+            {"fam": "script", "items": [], "dflt": R(2, [0, 11])},           # two calls per round, forever, at every level
+            {"fam": "bysub", "top": R(1, [10, 1]), "sub": ["raise"]},        # the nested call's provider raises
+            {"fam": "bysub", "top": R(3, [31]), "sub": R(9, [])},            # only the second tool is requested
+            {"fam": "script", "items": [R(4, [0]), R(4, []), R(4, [10]), R(5, [1]), R(6, [])], "dflt": R(4, [0])},
+            {"fam": "stoponerr", "tools": R(6, [10, 1]), "plain": R(80, [])},
+            {"fam": "chain", "c": 7, "first": [0, 1]},
+        ]
+        toolsets = [
+            [N(2), True],
+            [N(1), "clear"],
+            [N(0), True],
+            [N(3), False],
+            ["clear", True],
+            ["ask", True],
+            [N(2, False), "ask"],
+            [N(4), N(1)],
+            ["clear", "clear"],
+        ]
+        limits = [0, 1, 2, 3, 4, -1] + ([5] if deep else [])
+        comps = [["aff", 100], ["aff", 200], ["raisefinal"]]
+        i = 0
+        for p in rprovs:
+            for ts in toolsets:
+                for mi in limits:
+                    for dp in (1, 2) if not deep else (0, 1, 2, 3):
+                        if dp == 2 and not deep and (mi in (0, -1) or not any(isinstance(k, list) for k in ts)):
+                            continue
+                        i += 1
+                        out.append({"kind": "tool", "prov": p, "comp": comps[i % 3], "tools": ts, "auto": True,
+                                    "has_method": True, "max_iter": mi, "depth": dp})
+        # consecutive calls on one nucleus (plain and re-entrant tools)
+        seqs = [[[2, True]], [[1, True], [3, True]], [[0, True], [4, False], [2, True]]]
+        for p in rprovs[:4] + provs[:3] + [provs[-1]]:
+            for ts in ([True, False], [N(2), True], ["clear", True], [N(1), "clear"]):
+                for mi in (0, 1, 2, 4):
+                    for more in seqs:
+                        i += 1
+                        out.append({"kind": "tool", "prov": p, "comp": comps[i % 3], "tools": ts, "auto": True,
+                                    "has_method": True, "max_iter": mi, "depth": 1, "more": more})
         return out
 
     def exhaustive_cases(self):
@@ -371,16 +434,30 @@ class C18(Check):
         def pitem(p_raise=0.05):
             return ["raise"] if rng.random() < p_raise else ["resp", rng.randint(0, 99), calls()]
         f = rng.random()
-        if f < 0.6:
-            p = {"fam": "script", "items": [pitem() for _ in range(rng.randint(0, 7))], "dflt": pitem(0.02)}
-        elif f < 0.8:
+        if f < 0.5:
+            p = {"fam": "script", "items": [pitem() for _ in range(rng.randint(0, 9))], "dflt": pitem(0.02)}
+        elif f < 0.65:
             p = {"fam": "stoponerr", "tools": ["resp", rng.randint(0, 9), calls() or [1]], "plain": pitem(0.1)}
-        else:
+        elif f < 0.8:
             p = {"fam": "chain", "c": rng.randint(0, 9), "first": calls()}
-        return {"kind": "tool", "prov": p, "comp": rng.choice([["aff", rng.randint(0, 900)], ["aff", 5], ["raisefinal"], ["raise"]]),
-                "tools": [rng.random() < 0.6 for _ in range(rng.choice([0, 1, 2, 3, 4]))],
+        else:
+            p = {"fam": "bysub", "top": pitem(0.02), "sub": pitem(0.1)}
+        reentrant = rng.random() < 0.5
+
+        def tool():
+            if reentrant and rng.random() < 0.55:
+                return rng.choice([["nest", rng.randint(-1, 3), rng.random() < 0.85], "clear", "ask",
+                                   ["nest", rng.randint(0, 2), True]])
+            return rng.random() < 0.6
+        case = {"kind": "tool", "prov": p, "comp": rng.choice([["aff", rng.randint(0, 900)], ["aff", 5], ["raisefinal"], ["raise"]]),
+                "tools": [tool() for _ in range(rng.choice([0, 1, 2, 3, 4]))],
                 "auto": rng.random() < 0.85, "has_method": rng.random() < 0.9,
                 "max_iter": rng.choice([-1, 0, 1, 2, 3, 4, 5, 6])}
+        if reentrant:
+            case["depth"] = rng.choice([0, 1, 1, 2, 2])
+        if rng.random() < 0.3:
+            case["more"] = [[rng.choice([-1, 0, 1, 2, 3, 4]), rng.random() < 0.85] for _ in range(rng.randint(1, 2))]
+        return case
 
     def gen_cases(self, rng, n):
         out = []
@@ -596,28 +673,49 @@ class C18(Check):
 
     # -- tool loop -----------------------------------------------------------
     def _run_tool(self, case):
+        """One nucleus, one provider, one mitochondria; case['max_iter']/['auto'] then case['more'] are consecutive
+        top-level calls.  Every provider / mitochondria invocation is attributed to the activation of
+        transcribe_with_tools that is executing at that moment (a stack of frames kept by the harness: the stub
+        tools push a frame around their own use of the nucleus)."""
         from operon_ai.organelles.nucleus import Nucleus
         from operon_ai.organelles.mitochondria import Mitochondria
         from operon_ai.providers import LLMResponse, ToolCall
-        events = []     # chronological: ("tools", k, prev) | ("exec", call, res) | ("complete", final, prev)
+        lines = []      # chronological observation lines
+        frames = []     # every activation / tool frame ever opened
+        stack = []      # frames currently open, outermost first
         tools = case["tools"]
+        depth_cap = case.get("depth", 1)
+        top_calls = [[case["max_iter"], case["auto"]]] + [list(c) for c in case.get("more", [])]
+        counter = {"tools": 0}
+        CAP = 60000
 
         def parse_prompt(prompt):
+            m = re.match(r"p(-?\d+)", prompt)
+            q = int(m.group(1)) if m else -1
             prev = []
             for _cid, txt in re.findall(r"^Tool '([^']*)' returned: (.*)$", prompt, re.M):
                 if txt.startswith("Error: Unknown tool"):
                     prev.append(-1000)
                 elif txt.startswith("Error: boom-"):
                     prev.append(-int(txt[len("Error: boom-"):]))
+                elif txt.startswith("Error: provider-"):
+                    prev.append(-777)
                 else:
                     try:
                         prev.append(int(txt))
                     except ValueError:
                         prev.append(-555)
-            return prev, prompt.rstrip().endswith("Please provide your final response now.")
+            return q, prev, prompt.rstrip().endswith("Please provide your final response now.")
 
         def resp(c):
             return LLMResponse(content=f"r{c}", model="stub", tokens_used=1, latency_ms=0.0)
+
+        def new_frame(kind, q, limit, auto):
+            fr = {"kind": kind, "dep": len(stack), "q": q, "limit": limit, "auto": auto, "nt": 0, "nc": 0, "ne": 0,
+                  "seq": [], "returned": False, "exc": None}
+            frames.append(fr)
+            stack.append(fr)
+            return fr
 
         class PlainProvider:
             name = "stub"
@@ -626,27 +724,34 @@ class C18(Check):
                 return True
 
             def complete(self, prompt, config=None):
-                prev, final = parse_prompt(prompt)
-                events.append(("complete", int(final), prev))
-                if len(events) > 200 or sum(1 for e in events if e[0] == "complete") > SLACK:
+                q, prev, final = parse_prompt(prompt)
+                fr = stack[-1]
+                lines.append([32, fr["dep"], int(final), q] + prev)
+                fr["nc"] += 1
+                fr["seq"].append("complete")
+                if len(lines) > CAP or fr["nc"] > SLACK:
                     raise Runaway("complete")
                 c = case["comp"]
                 if c[0] == "raise" or (c[0] == "raisefinal" and final):
-                    raise ProviderError("complete")
+                    raise ProviderError("provider-complete")
                 if c[0] == "raisefinal":
                     return resp(0)
-                return resp(c[1] + int(final) + 2 * sum(prev))
+                return resp(c[1] + int(final) + 2 * sum(prev) + 7 * q)
 
         class ToolProvider(PlainProvider):
             def complete_with_tools(self, prompt, tools, config=None):
-                k = sum(1 for e in events if e[0] == "tools")
-                prev, _final = parse_prompt(prompt)
-                events.append(("tools", k, prev))
-                if k >= max(0, case["max_iter"]) + SLACK:
+                k = counter["tools"]
+                counter["tools"] += 1
+                q, prev, _final = parse_prompt(prompt)
+                fr = stack[-1]
+                lines.append([30, fr["dep"], q] + prev)
+                fr["nt"] += 1
+                fr["seq"].append("tools")
+                if len(lines) > CAP or fr["limit"] is None or fr["nt"] > max(0, fr["limit"]) + SLACK:
                     raise Runaway("complete_with_tools")
-                it = ev_prov(case["prov"], k, prev)
+                it = ev_prov(case["prov"], k, prev, q)
                 if it[0] == "raise":
-                    raise ProviderError(k)
+                    raise ProviderError(f"provider-{k}")
                 c, calls = it[1], it[2]
                 tcs = [ToolCall(id=f"c{x}", name=f"tool{x % 10}", arguments={"a": x // 10}) for x in calls]
                 if not tcs and c % 2 == 1:
@@ -655,6 +760,7 @@ class C18(Check):
 
         class SpyMito(Mitochondria):
             def execute_tool_call(self, call):
+                fr = stack[-1]
                 r = super().execute_tool_call(call)
                 code = int(call.id[1:])
                 if r.success:
@@ -663,51 +769,88 @@ class C18(Check):
                     rc = -1000
                 elif r.error.startswith("boom-"):
                     rc = -int(r.error[5:])
+                elif r.error.startswith("provider-"):
+                    rc = -777
                 else:
                     rc = -555
-                events.append(("exec", code, rc))
+                lines.append([31, fr["dep"], code, rc])
+                fr["ne"] += 1
+                fr["seq"].append("exec")
                 return r
 
         mito = SpyMito(silent=True)
-        invoked = []
-        for t, ok in enumerate(tools):
-            def mk(t, ok):
-                def f(a):
-                    invoked.append((t, a))
-                    if not ok:
-                        raise ValueError(f"boom-{a + 1}")
-                    return 2 * a + 1
-                return f
-            mito.register_function(f"tool{t}", mk(t, ok), description=f"tool {t}")
         provider = ToolProvider() if case["has_method"] else PlainProvider()
         nuc = Nucleus(provider=provider)
-        res, exc = None, None
-        try:
-            res = nuc.transcribe_with_tools("prompt", mito, max_iterations=case["max_iter"], auto_execute=case["auto"])
-        except ProviderError as e:
-            exc = ("provider", str(e))
-        except Runaway as e:
-            exc = ("other", f"runaway {e}")
-        except Exception as e:
-            exc = ("other", f"{type(e).__name__}: {e}")
-        trace = {"kind": "tool", "events": events, "exc": exc, "invoked": invoked, "returned": res is not None}
-        if exc and exc[0] == "other":
+        invoked = []
+
+        def run_twt(q, limit, auto):
+            """one activation of transcribe_with_tools on THE nucleus -> content id; the provider's exception propagates"""
+            fr = new_frame("twt", q, limit, auto)
+            lines.append([33, fr["dep"], q, limit, int(auto)])
+            try:
+                r = nuc.transcribe_with_tools(f"p{q}", mito, max_iterations=limit, auto_execute=auto)
+                fr["returned"] = True
+                c = int(r.content[1:])
+                lines.append([34, fr["dep"], 1, c, fr["nt"], fr["nc"], fr["ne"]])
+                return c
+            except ProviderError:
+                fr["exc"] = "provider"
+                lines.append([34, fr["dep"], 0, 0, fr["nt"], fr["nc"], fr["ne"]])
+                raise
+            except Runaway as e:
+                fr["exc"] = f"runaway {e}"
+                raise
+            except Exception as e:
+                fr["exc"] = f"{type(e).__name__}: {e}"
+                raise
+            finally:
+                stack.pop()
+
+        for t, kind in enumerate(tools):
+            def mk(t, kind):
+                def f(a):
+                    invoked.append((t, a))
+                    if kind is False:
+                        raise ValueError(f"boom-{a + 1}")
+                    if kind is True:
+                        return 2 * a + 1
+                    dep = len(stack)               # depth of whatever this tool does with the nucleus
+                    if kind == "clear":
+                        nuc.clear_log()
+                        lines.append([35, dep])
+                        return 2 * a + 1
+                    q = 100 * dep + a
+                    if kind == "ask":
+                        new_frame("ask", q, None, None)
+                        try:
+                            return int(nuc.transcribe(f"p{q}").content[1:])
+                        finally:
+                            stack.pop()
+                    _nest, limit, auto = kind
+                    if len(stack) - 1 >= depth_cap:    # as many tool frames open as the case allows: behave like a plain tool
+                        return 2 * a + 1
+                    return run_twt(q, limit, auto)
+                return f
+            mito.register_function(f"tool{t}", mk(t, kind), description=f"tool {t}")
+
+        exc = None
+        for j, (limit, auto) in enumerate(top_calls):
+            try:
+                run_twt(j, limit, auto)
+            except ProviderError:
+                pass
+            except Runaway as e:
+                exc = ("other", f"runaway {e}")
+            except Exception as e:
+                exc = ("other", f"{type(e).__name__}: {e}")
+            if exc:
+                break
+            lines.append([37, len(nuc.transcription_log)])
+        trace = {"kind": "tool", "frames": frames, "exc": exc, "invoked": invoked, "lines": lines}
+        if exc:
             return [[-997]], trace
-        nt = sum(1 for e in events if e[0] == "tools")
-        nc = sum(1 for e in events if e[0] == "complete")
-        ne = sum(1 for e in events if e[0] == "exec")
-        if res is None:
-            head = [3, 0, 0, 0, nt, nc, ne]
-        else:
-            head = [3, 1, int(res.content[1:]), len(nuc.transcription_log), nt, nc, ne]
-        obs = [head]
-        for e in events:
-            if e[0] == "tools":
-                obs.append([30, e[1]] + e[2])
-            elif e[0] == "exec":
-                obs.append([31, e[1], e[2]])
-            else:
-                obs.append([32, e[1]] + e[2])
+        log = [int(t.response.content[1:]) for t in nuc.transcription_log]
+        obs = [[3, len(top_calls), len(log)], [36] + log] + lines
         return obs, trace
 
     # ------------------------------------------------------------------
@@ -731,12 +874,26 @@ class C18(Check):
             pt = f"(PScript {clist([pi(i) for i in p['items']])} {pi(p['dflt'])})"
         elif p["fam"] == "stoponerr":
             pt = f"(PStopOnErr {pi(p['tools'])} {pi(p['plain'])})"
+        elif p["fam"] == "bysub":
+            pt = f"(PBySub {pi(p['top'])} {pi(p['sub'])})"
         else:
             pt = f"(PChain {cz(p['c'])} {czl(p['first'])})"
         c = case["comp"]
         ct = {"aff": f"(CAff {cz(c[1]) if len(c) > 1 else 0})", "raise": "CRaise", "raisefinal": "CRaiseFinal"}[c[0]]
-        return (f"(CTool {pt} {ct} {clist([cbool(b) for b in case['tools']])} {cbool(case['auto'])} "
-                f"{cbool(case['has_method'])} {cz(case['max_iter'])})")
+
+        def tk(k):
+            if k is True:
+                return "KOk"
+            if k is False:
+                return "KBoom"
+            if k == "clear":
+                return "KClear"
+            if k == "ask":
+                return "KAsk"
+            return f"(KNest {cz(k[1])} {cbool(k[2])})"
+        calls = [[case["max_iter"], case["auto"]]] + [list(x) for x in case.get("more", [])]
+        return (f"(CTool {pt} {ct} {clist([tk(k) for k in case['tools']])} {cbool(case['has_method'])} "
+                f"{cnat(case.get('depth', 1))} {clist([f'({cz(l)}, {cbool(a)})' for l, a in calls])})")
 
     def _coq_heal(self, case):
         # the validator table is the chaperone oracle tabulated on the outputs this case's generator can produce;
@@ -852,22 +1009,33 @@ class C18(Check):
         return None
 
     def _mon_tool(self, case, t):
-        bound = max(0, case["max_iter"])
-        ev = t["events"]
-        nt = sum(1 for e in ev if e[0] == "tools")
-        nc = sum(1 for e in ev if e[0] == "complete")
-        if nt > bound:
-            return Violation("C18/tool-too-many-rounds", f"{nt} complete_with_tools calls with max_iterations={case['max_iter']}")
-        if nc > 1 or nt + nc > bound + 1:
-            return Violation("C18/tool-too-many-completions", f"{nt} tool rounds + {nc} plain completions with max_iterations={case['max_iter']}")
-        rounds = sum(1 for i, e in enumerate(ev) if e[0] == "tools" and i + 1 < len(ev) and ev[i + 1][0] == "exec")
-        if rounds > bound:
-            return Violation("C18/tool-too-many-rounds", f"{rounds} rounds executed tools with max_iterations={case['max_iter']}")
-        for i, e in enumerate(ev):
-            if e[0] == "complete" and i != len(ev) - 1:
-                return Violation("C18/tool-activity-after-final-completion", f"events after the plain completion: {ev[i + 1:]}")
-        if not t["returned"] and not (t["exc"] and t["exc"][0] == "provider"):
-            return Violation("C18/tool-raises", f"transcribe_with_tools raised {t['exc']}")
+        """the property, per activation: EVERY call of transcribe_with_tools (the outermost ones and those a tool made
+        on the same nucleus while a round was being executed) performs at most its own max_iterations tool rounds
+        plus one final completion, and returns unless the provider raised"""
+        for fr in t["frames"]:
+            if fr["kind"] != "twt":
+                continue
+            bound = max(0, fr["limit"])
+            who = (("the outermost call" if fr["dep"] == 0 else f"a call nested at depth {fr['dep']}")
+                   + f" (prompt p{fr['q']}, max_iterations={fr['limit']})")
+            inner = [g for g in t["frames"] if g is not fr and g["dep"] > fr["dep"]]
+            ctx = "; registered tools used the same nucleus while its rounds were executed" if inner else ""
+            nt, nc, seq = fr["nt"], fr["nc"], fr["seq"]
+            if nt > bound:
+                return Violation("C18/tool-too-many-rounds",
+                                 f"{nt} complete_with_tools calls with max_iterations={fr['limit']} by {who}{ctx}")
+            if nc > 1 or nt + nc > bound + 1:
+                return Violation("C18/tool-too-many-completions",
+                                 f"{nt} tool rounds + {nc} plain completions with max_iterations={fr['limit']} by {who}{ctx}")
+            rounds = sum(1 for i, e in enumerate(seq) if e == "tools" and i + 1 < len(seq) and seq[i + 1] == "exec")
+            if rounds > bound:
+                return Violation("C18/tool-too-many-rounds",
+                                 f"{rounds} rounds executed tools with max_iterations={fr['limit']} by {who}{ctx}")
+            if "complete" in seq and seq.index("complete") != len(seq) - 1:
+                return Violation("C18/tool-activity-after-final-completion",
+                                 f"{who} went on after its plain completion: {seq[seq.index('complete') + 1:]}")
+            if not fr["returned"] and fr["exc"] != "provider":
+                return Violation("C18/tool-raises", f"transcribe_with_tools raised {fr['exc']} in {who}")
         return None
 
     # ------------------------------------------------------------------
@@ -878,7 +1046,7 @@ class C18(Check):
             return len(trace.get("calls", [])) >= 1
         if case["kind"] == "swarm":
             return len(trace.get("spawned", [])) >= 1
-        return len(trace.get("events", [])) >= 1
+        return len(trace.get("lines", [])) >= 2
 
     def classify(self, case, obs, trace):
         k = case["kind"]
@@ -907,9 +1075,9 @@ class C18(Check):
             if len(trace["spawned"]) == max(0, case["max_regen"] + 1):
                 tags.append("swarm:worker-budget-hit-exactly")
         else:
-            nt = sum(1 for e in trace["events"] if e[0] == "tools")
-            nc = sum(1 for e in trace["events"] if e[0] == "complete")
-            tags.append("tool:" + ("returned" if trace["returned"] else "provider_raised"))
+            fr0 = trace["frames"][0]
+            nt, nc = fr0["nt"], fr0["nc"]
+            tags.append("tool:" + ("returned" if fr0["returned"] else "provider_raised"))
             tags.append(f"tool:max_iter={case['max_iter']}")
             tags.append(f"tool:rounds={nt}")
             tags.append(f"tool:prov={case['prov']['fam']}")
@@ -919,6 +1087,20 @@ class C18(Check):
                 tags.append("tool:budget-exhausted")
             if not case["auto"]:
                 tags.append("tool:no-auto-execute")
+            nested = [f for f in trace["frames"] if f["kind"] == "twt" and f["dep"] > 0]
+            if nested:
+                tags.append("tool:reentrant-nested-call")
+                tags.append(f"tool:nesting-depth={max(f['dep'] for f in nested)}")
+                if any(f["nt"] == max(0, f["limit"]) and f["nc"] for f in nested):
+                    tags.append("tool:nested-budget-exhausted")
+                if any(f["exc"] == "provider" for f in nested):
+                    tags.append("tool:nested-provider-raised")
+            if any(l[0] == 35 for l in trace["lines"]):
+                tags.append("tool:reentrant-clear-log")
+            if any(f["kind"] == "ask" for f in trace["frames"]):
+                tags.append("tool:reentrant-transcribe")
+            if case.get("more"):
+                tags.append("tool:consecutive-calls")
         return tags
 
     def shrink(self, case, pred):
@@ -926,9 +1108,20 @@ class C18(Check):
         if k == "heal" and case["gen"]["fam"] == "script":
             items = common.shrink_list(case["gen"]["items"], lambda it: pred({**case, "gen": {**case["gen"], "items": it}}))
             return {**case, "gen": {**case["gen"], "items": items}}
-        if k == "tool" and case["prov"]["fam"] == "script":
-            items = common.shrink_list(case["prov"]["items"], lambda it: pred({**case, "prov": {**case["prov"], "items": it}}))
-            return {**case, "prov": {**case["prov"], "items": items}}
+        if k == "tool":
+            if case.get("more"):
+                more = common.shrink_list(case["more"], lambda m: pred({**case, "more": m}))
+                case = {**case, "more": more}
+                if not more:
+                    case = {x: y for x, y in case.items() if x != "more"}
+            if len(case["tools"]) > 1:      # drop trailing tools (indices of the others stay)
+                tl = list(case["tools"])
+                while len(tl) > 1 and pred({**case, "tools": tl[:-1]}):
+                    tl = tl[:-1]
+                case = {**case, "tools": tl}
+            if case["prov"]["fam"] == "script":
+                items = common.shrink_list(case["prov"]["items"], lambda it: pred({**case, "prov": {**case["prov"], "items": it}}))
+                case = {**case, "prov": {**case["prov"], "items": items}}
         return case
 
 
